@@ -47,9 +47,9 @@ def _import_puzzle_module():
 _import_puzzle_module()
 
 NAME = "nurimaze"
-STATUS = "model+differential"
-THEOREMS = []
-LEAN_FILE = None
+STATUS = "theorem"
+THEOREMS = ["Cspuz.C11.Nurimaze.program_iff_rules", "Cspuz.C11.Nurimaze.total"]
+LEAN_FILE = "C11_Nurimaze"
 LEAN_CMD = "puz_nurimaze"
 
 _SIZES = [(1, 2), (2, 1), (1, 3), (3, 1), (2, 2), (2, 3), (3, 2), (1, 4), (4, 1), (1, 5), (5, 1), (3, 3), (2, 4), (4, 2), (3, 4),
